@@ -71,7 +71,7 @@ def run(prop, tier, seed):
             # deeply refined trial elements (h_x = 2^-8 ... 2^-12 of a side): end points where the distance to the nearest
             # quadrature node is 1e-4 h_x and any loss of relative accuracy in the squared distance shows
             ("UnitSquare", 12, 2, 2), ("Circle", 11, 2, 2)]
-    nel = 10 if quick else 60
+    nel = 10 if quick else 200
     stats, total, cells, samples = [], 0, set(), []
     worst = {}
     for name, maxl, tlevels, th in plan:
